@@ -263,8 +263,11 @@ fn inline(depth: u32, compat: bool, in_a: bool) -> BoxedStrategy<String> {
     });
     let fmt = (prop_oneof![Just("b"), Just("i"), Just("u"), Just("strong"), Just("em"), Just("s"), Just("del"), Just("sup"), Just("sub")], kids()).prop_map(|(t, k)| format!("<{t}>{k}</{t}>"));
     // zero to three allowed classes (single spaces: a class attribute the sanitizer need not rewrite)
-    let code = (prop::collection::vec("[a-z]{1,6}", 0..4), clean_text()).prop_map(|(l, t)| {
-        if l.is_empty() {
+    let code = (prop::collection::vec("[a-z]{1,6}", 0..4), clean_text(), any::<bool>()).prop_map(|(l, t, empty_attr)| {
+        if l.is_empty() && empty_attr {
+            // an allowed attribute with an empty value is still an allowed attribute
+            format!("<code class=\"\">{t}</code>")
+        } else if l.is_empty() {
             format!("<code>{t}</code>")
         } else {
             format!("<code class=\"{}\">{t}</code>", l.iter().map(|x| format!("language-{x}")).collect::<Vec<_>>().join(" "))
